@@ -279,10 +279,11 @@ func TestC10(t *testing.T) {
 		realClientOddReplies(t, r, tmp)
 		realClientRetryAfter(t, r)
 		embeddedDeclarations(t, r, tmp)
+		structsOfOneType(t, r)
 		bigFileCache(t, r, tmp)
 		uncleanStructPrefixes(t, r)
 	}
-	r.Require("embedded_struct_declarations", "cases_with_a_poll_ticker_of_the_callers", "retry_after_cases", "undeclared_null_entry_cases", "big_file_cache_restarts", "struct_prefix_spellings", "real_client_odd_replies", "returned_nil", "returned_error_ctx", "complete_cache_no_request", "retry_rounds", "fileclient_missing", "fileclient_entries_without_value", "misconfig", "cache_ignored_as_invalid")
+	r.Require("struct_values_of_one_type", "embedded_struct_declarations", "cases_with_a_poll_ticker_of_the_callers", "retry_after_cases", "undeclared_null_entry_cases", "big_file_cache_restarts", "struct_prefix_spellings", "real_client_odd_replies", "returned_nil", "returned_error_ctx", "complete_cache_no_request", "retry_rounds", "fileclient_missing", "fileclient_entries_without_value", "misconfig", "cache_ignored_as_invalid")
 	r.Rule("seeded cases = declared names (1-6 of a 6-name pool, with duplicates, via Secrets and/or a run-time generated tagged struct) x cache content (none, empty, partial, complete, stale, invalid JSON, null entry, entry without secret, empty key, wrong JSON type, one entry with a wrongly typed field, read error) x per-secret service script (ok, fail k times, fail k times with the client's own timeout error, fail until T, hang until T, slow, never; failures with and without the context error wrapped) x expiry age {0, 1h, 30d} with old/zero/future cache stamps x context (background, deadline, cancel at T) x client kind (scripted / real FileClient). Distinct = (cache kind, set of script modes, context kind, client kind, outcome)")
 }
 
@@ -1031,4 +1032,66 @@ func embeddedDeclarations(t *testing.T, r *evid.Run, tmp string) {
 			st.Close()
 		}
 	}
+}
+
+// KeyMaterial unmarshals itself.
+type KeyMaterial struct{ Raw string }
+
+func (k *KeyMaterial) UnmarshalBinary(b []byte) error { k.Raw = string(b); return nil }
+
+type envConfig struct {
+	Key   *KeyMaterial `setec:"key"`
+	KeyV  KeyMaterial  `setec:"key"`
+	Token string       `setec:"token"`
+}
+
+// structsOfOneType: a program declares its secrets through several VALUES of one struct type (one per
+// environment), in one store or in stores built one after the other. Every value's fields end up holding the
+// secrets named by ITS prefix.
+func structsOfOneType(t *testing.T, r *evid.Run) {
+	svc := fakesvc.New()
+	envs := []string{"dev", "staging", "prod"}
+	for _, e := range envs {
+		svc.Set(e+"/key", 3, []byte(e+"-key"))
+		svc.Set(e+"/token", 3, []byte(e+"-token"))
+	}
+	check := func(what string, cfgs []*envConfig) {
+		for i, c := range cfgs {
+			e := envs[i]
+			r.Eval(1)
+			r.Count("struct_values_of_one_type", 1)
+			if c.Key == nil || c.Key.Raw != e+"-key" || c.KeyV.Raw != e+"-key" || c.Token != e+"-token" {
+				k := "<nil>"
+				if c.Key != nil {
+					k = c.Key.Raw
+				}
+				r.Violation("struct-field-not-filled", -1, fmt.Sprintf("%s: the %s struct holds Key=%q KeyV=%q Token=%q", what, e, k, c.KeyV.Raw, c.Token), nil)
+			}
+		}
+	}
+	// one store over three values of the type
+	cfgs := []*envConfig{{}, {}, {}}
+	var structs []setec.Struct
+	for i, e := range envs {
+		structs = append(structs, setec.Struct{Value: cfgs[i], Prefix: e})
+	}
+	st, err := setec.NewStore(context.Background(), setec.StoreConfig{Client: svc, Structs: structs, PollInterval: -1, Logf: func(string, ...any) {}})
+	if err != nil {
+		r.Violation("error-while-context-alive", -1, "one store over three struct values of one type: "+err.Error(), nil)
+	} else {
+		check("one store over three struct values of one type", cfgs)
+		st.Close()
+	}
+	// three stores, one after the other
+	cfgs = []*envConfig{{}, {}, {}}
+	for i, e := range envs {
+		st, err := setec.NewStore(context.Background(), setec.StoreConfig{Client: svc, Structs: []setec.Struct{{Value: cfgs[i], Prefix: e}}, PollInterval: -1, Logf: func(string, ...any) {}})
+		if err != nil {
+			r.Violation("error-while-context-alive", -1, "stores built one after the other over values of one struct type: "+err.Error(), nil)
+			return
+		}
+		st.Close()
+	}
+	check("stores built one after the other over values of one struct type", cfgs)
+	r.Distinct("struct values of one type")
 }
